@@ -17,8 +17,8 @@ pub fn prop() -> Prop {
         ],
         subs: vec![
             Sub::enumerate("store_load", store_load),
-            Sub::tape("iterator_scripts", 40, 300_000, 15_000_000, iterator_scripts),
-            Sub::tape("long_buffers", 40, 200_000, 10_000_000, long_buffers),
+            Sub::tape("iterator_scripts", 64, 300_000, 15_000_000, iterator_scripts),
+            Sub::tape("long_buffers", 64, 200_000, 10_000_000, long_buffers),
         ],
     }
 }
